@@ -11,6 +11,7 @@ import (
 	"regexp"
 	"strings"
 	"sync"
+	"time"
 
 	rt "github.com/arnodel/golua/runtime"
 
@@ -143,12 +144,12 @@ var hostile = []string{
 }
 
 type hostileRT struct {
-	s     *gl.Sess
-	steps []rt.Value
-	next  int
-	runs  int
-	r     *rand.Rand
-	only  int // >= 0: always run this step
+	s      *gl.Sess
+	steps  []rt.Value
+	next   int
+	runs   int
+	r      *rand.Rand
+	only   int // >= 0: always run this step
 	resets int
 }
 
@@ -306,7 +307,14 @@ func (Prop) RunBatch(c *vp.Child) {
 				continue
 			}
 			c.Begin(v.label, v.text)
+			t0 := time.Now()
 			d1 := solo(v)
+			if time.Since(t0) > 20*time.Second {
+				// a workload filter, not a verdict: a victim that needs this long alone
+				// would be run four more times here
+				c.Inconclusive("victim too slow for the interleaving workload")
+				continue
+			}
 			d2 := solo(v)
 			c.Eval(1)
 			if digest(d1) != digest(d2) {
@@ -339,10 +347,19 @@ func (Prop) RunBatch(c *vp.Child) {
 	}
 	r := c.Rand("conc")
 	vs := victimsFor(c, 40+c.Pick(40, 120), int64(c.Batch))
-	want := make([]string, len(vs))
-	for i, v := range vs {
-		want[i] = digest(solo(v))
+	want := make([]string, 0, len(vs))
+	kept := vs[:0]
+	for _, v := range vs {
+		t0 := time.Now()
+		d := digest(solo(v))
+		if time.Since(t0) > 20*time.Second {
+			c.Inconclusive("victim too slow for the concurrent workload") // workload filter, not a verdict
+			continue
+		}
+		kept = append(kept, v)
+		want = append(want, d)
 	}
+	vs = kept
 	for round := 0; round < rounds; round++ {
 		g := 2 + r.Intn(15)
 		pick := make([]int, g)
